@@ -103,6 +103,15 @@ impl NodeWrapper {
 #[derive(Debug, Deserialize, Serialize, Eq, PartialEq)]
 pub struct CfgWrapper(Vec<NodeWrapper>);
 
+#[cfg(feature = "rva_verif")]
+impl CfgWrapper {
+    /// Field-wise access to the wrapped nodes (verification only).
+    #[must_use]
+    pub fn nodes(&self) -> &[NodeWrapper] {
+        &self.0
+    }
+}
+
 impl From<&Cfg> for CfgWrapper {
     fn from(cfg: &Cfg) -> Self {
         CfgWrapper(cfg.iter().map(|x| NodeWrapper::from(&x, cfg)).collect())
